@@ -8,7 +8,9 @@ import (
 	"bytes"
 	"fmt"
 	"math/big"
+	"runtime/debug"
 	"testing"
+	"verif.local/ref/guard"
 
 	"github.com/bilibili/smgo/sm2/internal/fiat"
 	"pgregory.net/rapid"
@@ -97,7 +99,9 @@ func c15Operand(t *rapid.T, label string) (sm2ref.Point, string) {
 	return sm2ref.Mul(a, sm2ref.G), cls
 }
 
-func c15Raw(p *SM2Point) [3][4]uint64 { return [3][4]uint64{*p.x.GetRaw(), *p.y.GetRaw(), *p.z.GetRaw()} }
+func c15Raw(p *SM2Point) [3][4]uint64 {
+	return [3][4]uint64{*p.x.GetRaw(), *p.y.GetRaw(), *p.z.GetRaw()}
+}
 
 func TestVerif_C15_GroupLaw(t *testing.T) {
 	rec := stats.Get("C15", "grouplaw")
@@ -384,7 +388,7 @@ func TestVerif_C15_StructuredIntermediates(t *testing.T) {
 // verifProp_C15_Decode builds the property (shared by the rapid test and the native fuzz target).
 func verifProp_C15_Decode() func(*rapid.T) {
 	rec := stats.Get("C15", "decode")
-	rec.Rule("rapid: byte strings as encodings: valid 65-byte encodings; every kind of single-bit flip of prefix/x/y; lengths 0..70; prefixes 0x00..0x07 with 1, 33 and 65 bytes; x+p (tiny x) and y>=p; (x,p-y); uniform. Oracle: SetBytes accepts iff the reference decoder does (0x00 alone, or 0x04||canonical on-curve x||y) and then re-encodes to the same bytes; on rejection the receiver is unchanged; input unmodified; no panic. Non-trivial: every rejected encoding and every accepted one other than a plain valid point; distinct by bytes.")
+	rec.Rule("rapid: byte strings as encodings: valid 65-byte encodings; every kind of single-bit flip of prefix/x/y; lengths 0..70; prefixes 0x00..0x07 with 1, 33 and 65 bytes; x+p (tiny x) and y>=p; (x,p-y); uniform. Oracle: SetBytes accepts iff the reference decoder does (0x00 alone, or 0x04||canonical on-curve x||y) and then re-encodes to the same bytes; on rejection the receiver is unchanged; input unmodified (one case in three decodes from a read-only mapping); no panic. Non-trivial: every rejected encoding and every accepted one other than a plain valid point; distinct by bytes.")
 	return func(t *rapid.T) {
 		r := gen.Rand(t, "seed")
 		a, _ := c15Scalar(t, "a")
@@ -487,6 +491,14 @@ func verifProp_C15_Decode() func(*rapid.T) {
 		}
 		in := append([]byte(nil), b...)
 		want, wantOK := sm2ref.Decode(b)
+		// the encoding is an input: one case in three hands it over in a READ-ONLY mapping ending at an inaccessible page, so that a
+		// decoder that scribbles on it (even if it restores it before returning) faults
+		if gen.Uniform(t, "readonly", 0, 2) == 0 {
+			g := guard.RO(b)
+			defer g.Free()
+			b = g.B
+			debug.SetPanicOnFault(true)
+		}
 		recv := NewSM2Generator()
 		c15Scale(recv, []byte{9})
 		before := c15Raw(recv)
